@@ -6,6 +6,7 @@ replay file can regenerate it.
 from __future__ import annotations
 
 import copy as _copy
+import pickle
 import io
 import random
 import re
@@ -183,9 +184,16 @@ def copy_variants(kind: str) -> dict[str, tuple[Callable[[Any, VMF], Any], bool]
     if kind == 'EntityFixup':
         return {'EntityFixup(copy_values())': (lambda o, m: EntityFixup(o.copy_values()), True),
                 'copy.copy': (lambda o, m: _copy.copy(o), True),
-                'copy.deepcopy': (lambda o, m: _copy.deepcopy(o), True)}
+                'copy.deepcopy': (lambda o, m: _copy.deepcopy(o), True),
+                'pickle': (lambda o, m: pickle.loads(pickle.dumps(o)), True)}
     if kind == 'Keyvalues':
-        return {'copy()': (lambda o, m: o.copy(), True), 'copy.deepcopy': (lambda o, m: _copy.deepcopy(o), True)}
+        return {'copy()': (lambda o, m: o.copy(), True), 'copy.deepcopy': (lambda o, m: _copy.deepcopy(o), True),
+                'pickle': (lambda o, m: pickle.loads(pickle.dumps(o)), True)}
+    if kind == 'Output':
+        # Output defines __getstate__ / __setstate__: copy.copy, copy.deepcopy and pickle all go through that pair
+        return {'copy()': (lambda o, m: o.copy(), True), 'copy.copy': (lambda o, m: _copy.copy(o), True),
+                'copy.deepcopy': (lambda o, m: _copy.deepcopy(o), True),
+                'pickle': (lambda o, m: pickle.loads(pickle.dumps(o)), True)}
     return {'copy()': (lambda o, m: o.copy(), True)}
 
 
